@@ -687,7 +687,7 @@ pub enum RecipeTime {
 
 /// Returns minutes
 fn parse_time(s: &str, converter: &Converter) -> Result<u32, ParseTimeError> {
-    if s.is_empty() {
+    if s.trim().is_empty() {
         return Err(ParseTimeError::Empty);
     }
 
